@@ -188,11 +188,12 @@ def classify_parser(cg, f, expr, depth=0, seen=None):
                     return v
             if verdicts:
                 return 'configured', 'returned by ' + m.qualname
-    if isinstance(expr, ast.Attribute) and depth < 4:
+    if isinstance(expr, (ast.Attribute, ast.Subscript)) and depth < 4:
         root = expr
         chain_ = []
-        while isinstance(root, ast.Attribute):
-            chain_.append(root.attr)
+        while isinstance(root, (ast.Attribute, ast.Subscript)):
+            if isinstance(root, ast.Attribute):
+                chain_.append(root.attr)
             root = root.value
         if isinstance(root, ast.Name) and root.id == 'self':
             c = cg.static_class(f)
@@ -205,7 +206,7 @@ def classify_parser(cg, f, expr, depth=0, seen=None):
                     for k in cg.prog.mro(c) if hasattr(k, 'methods')
                     for mm in k.methods.values()
                     for n in walk_no_defs(mm.node))
-                if owner is not None and not inst_assigned:
+                if owner is not None and not inst_assigned and chain_:
                     return 'shared', 'self.%s lives on the class %s (%s): ' \
                         'one parser object, built with the options of ' \
                         'whichever instance stored it first, is shared by ' \
